@@ -97,13 +97,33 @@ pub fn authdata_built(arg: &str) -> (bool, String) {
     let fb = u8::from_str_radix(p[0], 16).unwrap();
     let Some(flags) = Flags::from_bits(fb) else { return (false, "not a Flags value".into()) };
     let (with_a, with_e) = (p[1] == "1" && p[3].contains('a'), p[2] == "1" && p[3].contains('e'));
+    // an optional fifth field names the property on whose behalf the input is tried: only what that property says of authenticator
+    // data is looked at (C02 / C03: RP ID hash, attested data present / absent and announced; C04: the flags byte; C08: the counter);
+    // without it, everything C12 says
+    let only = p.get(4).copied();
+    let looks = |what: &str| -> bool { match only { None | Some("C12") => true, Some("C02") | Some("C03") => matches!(what, "hash" | "at"), Some("C04") => what == "flags", Some("C08") => what == "counter", _ => true } };
     // rpIdHash: the SHA-256 of the RP ID as it was given (computed here with sha2 directly)
-    for rp in ["example.com", "Example.COM", "b\u{fc}cher.example", ""] {
+    for rp in if looks("hash") { vec!["example.com", "Example.COM", "b\u{fc}cher.example", ""] } else { vec![] } {
         use sha2::Digest;
         let want = sha2::Sha256::digest(rp.as_bytes());
         if AuthenticatorData::new(rp, None).rp_id_hash() != &want[..] {
             return (true, format!("rpIdHash of a value built for RP ID {rp:?} is not SHA-256 of that RP ID"));
         }
+    }
+    // header layout: rpIdHash(32) || flags(1) || big-endian counter(4); the flags byte is the value's flags (no bit more, no bit less),
+    // an absent counter is written as zero
+    for counter in [None, Some(0x0102_0304u32), Some(1), Some(0xff00_0000)] {
+        let v = AuthenticatorData::new("example.com", counter).set_flags(flags);
+        let field = v.flags.bits();
+        let b = v.to_vec();
+        if b.len() < 37 { return (true, "encoding shorter than 37 bytes".into()); }
+        if looks("counter") && b[33..37] != counter.unwrap_or(0).to_be_bytes() {
+            return (true, format!("counter {counter:?} is encoded as {:02x?}, the layout says big-endian {:02x?}", &b[33..37], counter.unwrap_or(0).to_be_bytes()));
+        }
+        if looks("flags") && b[32] != field {
+            return (true, format!("flags {field:#04x} (set_flags({fb:#04x}) on a new value) are encoded as {:#04x}", b[32]));
+        }
+        if looks("hash") && b[..32] != v.rp_id_hash()[..] { return (true, "the first 32 bytes are not the value's rpIdHash".into()); }
     }
     let mut d = AuthenticatorData::new("example.com", None);
     for step in p[3].chars() {
@@ -121,10 +141,11 @@ pub fn authdata_built(arg: &str) -> (bool, String) {
     if bytes.len() < 37 { return (true, "encoding shorter than 37 bytes".into()); }
     let (at, ed) = (bytes[32] & 0x40 != 0, bytes[32] & 0x80 != 0);
     let (has_a, has_e) = (d.attested_credential_data.is_some(), d.extensions.is_some());
-    if has_a != with_a || has_e != with_e { return (true, "a section handed to a setter is not in the value".into()); }
-    if at != has_a || ed != has_e {
+    if (looks("at") && has_a != with_a) || (looks("ed") && has_e != with_e) { return (true, "a section handed to a setter is not in the value".into()); }
+    if (looks("at") && at != has_a) || (looks("ed") && ed != has_e) {
         return (true, format!("flag byte {:#04x}: AT={at} ED={ed}, but attested section present={has_a}, extensions present={has_e} ({} bytes encoded)", bytes[32], bytes.len()));
     }
+    if !looks("round-trip") { return (false, format!("what {} says of built authenticator data holds on this input", only.unwrap_or("C12"))); }
     match AuthenticatorData::from_slice(&bytes) {
         Err(e) => (true, format!("the encoding of a built value is rejected by the decoder: {e:?}")),
         Ok(x) => {
